@@ -28,6 +28,8 @@ where
     }
 
     fn reset(&mut self) -> Result<()> {
+        #[cfg(anydb_verif)]
+        crate::verif_locks::tap("pages", &self.pages, true);
         self.pages.write().reset();
         self.truncate_if_needed_at(0)?;
         self.base.reset_base()
@@ -56,7 +58,11 @@ where
 
     fn rollback(&mut self) -> Result<()> {
         let bytes = self.base.read_current_change_file()?;
-        self.deserialize_then_undo_changes(&bytes)
+        self.deserialize_then_undo_changes(&bytes)?;
+        // Re-base the "previous" state on the restored one, so that a commit made right after
+        // a single rollback() records its changes against it (rollback_before did this already).
+        self.save_rollback_state();
+        Ok(())
     }
 
     fn find_rollback_files(&self) -> Result<BTreeMap<Stamp, PathBuf>> {
